@@ -263,6 +263,65 @@
 //	scoping     (correction) when the branches of an `if` or `switch` are joined, a variable declared
 //	            inside the statement (`var found bool` in a branch) is not part of the joined state: it
 //	            is not visible after the statement.
+//
+// Attribute values held in an `any`, type switches, pointers to attribute values, statements that
+// may panic (`checkVal`, `checkBytes`, `checkSlice`, `sortedResources.Less`; the code is in wp_t.go).
+// Reading conventions (trusted):
+//
+//	attribute   In a function that has a type switch, a type assertion (other than `id, _ :=
+//	values      res.Get("id").(string)`) or a parameter or result of type `any`, a value of static type `any`
+//	            is the model's `GoVal` (Model/Value.lean; in every other function `any` stays `PageVal`): a
+//	            value of Go type T - string, the ten integer types, bool, time.Time, []byte - is `.val k p`
+//	            with k the kind of T and p the payload (`.s`, `.i`, `.b`, `.t`, `.bs`; an unsigned value is
+//	            `.i (.ofNat n)`, read as the `Nat` n; `[]byte` is `List UInt8` and `.bs b` reads as
+//	            `b.getD []`: a nil slice is the empty one), `*T` is `.ptr k none` (nil) or `.ptr k (some p)`,
+//	            `[]string` is `.strs l`, the untyped nil is `.nil` (`v == nil` is `v = GoVal.nil`). A named
+//	            type is none of these. A GoVal whose payload has not the shape of its kind (`.val .int (.s _)`,
+//	            a negative payload under an unsigned kind) is not the image of a Go value: it matches no case.
+//	            `switch x := v.(type) { case T: A … default: D }` is a `match` on v with one arm per case,
+//	            x bound to the value at the Lean type of T, and `| _ => D`; each case lists one type (or nil);
+//	            the statements after the switch continue every arm that goes on. A case `*T` is the arm
+//	            `.ptr k p'` with x the `Option` of the pointee (see pointers); a `break` inside is outside the
+//	            subset. `c, ok := v.(T)` is the same match giving `(value, true)` or `(zero, false)`.
+//	            `T(e)` between integer types is the identity where the conversion cannot change the value
+//	            (same signedness and at least as wide, or unsigned into a strictly wider signed type: `Int.ofNat`;
+//	            `int` and `uint` have 64 bits); any other integer conversion is outside the subset.
+//	pointers    (addition) A pointer to a Go type of attribute values is an `Option` of the value it points
+//	            to: nil is `none`, `p == nil` is `isNone`. The model of values has no addresses, so the
+//	            outcome of `p == q` on two non-nil pointers is not determined by it; it is rendered
+//	            `match p, q with | none, none => true | some a, some b => same' k idx && a = b | _, _ => false`
+//	            (equal pointers point to equal values) where `same' : Nat → List Nat → Bool` is a parameter
+//	            added to the function - an arbitrary answer for the comparison site k (numbered in source
+//	            order) at the iteration indices idx of the enclosing loops, so that every evaluation has its
+//	            own. It is accepted only where each enclosing loop has an iteration index (the loops of the
+//	            paragraphs `loops (addition 2)` and `counting loops (addition)` below). A theorem about the
+//	            translated function is stated for every `same'`. A call of a translated function that has
+//	            this parameter passes `fun s i => same' k (idx ++ s :: i)` with k a fresh site.
+//	panics      (addition) An expression that may panic - a type assertion `v.(T)` without comma-ok, `*p`
+//	            and a method call `p.M()` of the value on a pointer p to an attribute value, an index read
+//	            `xs[i]` with a variable i whose range the translator cannot establish (no fact `i < len(xs)`),
+//	            the call of a translated function that may itself panic - makes the function return
+//	            `Res (results)`: `return e` is `Res.ok e`, the panic `Res.panic` (inside a loop through ret').
+//	            The sites of a statement's own expressions are evaluated first, innermost first, each by a
+//	            `match` that binds its value to a temporary a<n>' (`| _ => Res.panic`, for a call
+//	            `| .err => Res.err | .panic => Res.panic`) around the statement; all panics being one outcome
+//	            their order is immaterial. A site under the right operand of && / || is accepted in the
+//	            condition of an `if` only, which is split first: `if A || B { T } else { E }` is
+//	            `if A { T } else if B { T } else { E }`, `if A && B { T } else { E }` is
+//	            `if A { if B { T } else { E } } else { E }`. `return f(…)` with f such a function is `Gen.f …`.
+//	            `X.Get("id").(string)` on a Resource is `(X).id` as before (no panic: a ResView has an id).
+//	delegated   (addition) `getAttrVal(res, key)`, while it is itself outside the subset, is the parameter
+//	            `getAttrVal' : ResView → GoString → GoVal`.
+//	loops       (addition 2) `for _, r := range xs { … }` over a slice whose body assigns r or compares
+//	            pointers: the fold binds the element as r_ itself (an assignment to r re-binds it for the rest
+//	            of the iteration; the next iteration starts from the next element) and, when the body compares
+//	            pointers, runs over `xs.zipIdx` with the index n<depth>' as second component.
+//	counting    (addition) `for i := 0; i < len(A) && i < len(B); i++ { … }` (A, B slices the body does not
+//	loops       change) is a fold over `List.range (min A.length B.length)`; `i < len(A)` and `i < len(B)`
+//	            are known in the body.
+//	bytes       `[]byte` is `List UInt8`, an element `b[i]` (i known in range) is `b.getD i (0 : UInt8)`;
+//	            `bytes.Compare(a, b)` is `if a < b then -1 else if b < a then 1 else 0` with `<` the
+//	            lexicographic order of byte lists (what bytes.Compare computes).
 package main
 
 import (
@@ -294,6 +353,8 @@ var targets = []string{
 	"Schema.AddTwoWayRel",
 	// the URL front end (structures generated from the struct declarations, header: structs)
 	"Type.Fields", "SimpleURL.Path", "NewParams", "NewURL", "NewSimpleURL",
+	// attribute values held in an `any` (wp_t.go; header: attribute values … bytes)
+	"checkBytes", "checkSlice", "checkVal", "sortedResources.Less",
 }
 
 var (
@@ -336,6 +397,9 @@ func bytesLit(s string) string {
 // ---------- types ----------
 
 func leanType(t types.Type, n ast.Node) string {
+	if s, ok := wptType(t, n); ok {
+		return s
+	}
 	if s, ok := wpsType(t, n); ok {
 		return s
 	}
@@ -549,6 +613,9 @@ func optionPointer(p *types.Pointer) bool {
 }
 
 func zeroOf(t types.Type, n ast.Node) string {
+	if s, ok := wptZero(t, n); ok {
+		return s
+	}
 	switch leanType(t, n) {
 	case "GoString":
 		return "([] : GoString)"
@@ -1312,6 +1379,9 @@ func (x *tr) constant(e ast.Expr) (string, bool) {
 }
 
 func (x *tr) expr(e ast.Expr) string {
+	if s, ok := x.wptExpr(e); ok {
+		return s
+	}
 	if c, ok := x.constant(e); ok {
 		return c
 	}
@@ -2155,6 +2225,9 @@ func (x *tr) block(stmts []ast.Stmt, ind string) string {
 		}
 		fail(nil, "a path does not end in a return")
 	}
+	if out, ok := x.wptBlock(stmts, ind); ok {
+		return out
+	}
 	if ifs, ok := stmts[0].(*ast.IfStmt); ok && ifs.Init != nil {
 		// `if init; c { … }` is `init; if c { … }` (a variable declared by init is visible in the `if` only)
 		return x.block(append(x.splitInit(ifs), stmts[1:]...), ind)
@@ -2786,6 +2859,7 @@ func (x *tr) functionOnce(target string, d *ast.FuncDecl) (out string, err strin
 			}
 		}
 	}
+	x.wptBegin(target, d)
 	params := []string{}
 	add := func(fl *ast.FieldList) {
 		if fl == nil {
@@ -2829,6 +2903,7 @@ func (x *tr) functionOnce(target string, d *ast.FuncDecl) (out string, err strin
 		}
 		if x.recvObj == nil {
 			x.resultLean = strings.Join(res, " × ")
+			res = x.wptResults(target, res)
 		}
 	}
 	if x.recvObj != nil {
@@ -2843,6 +2918,7 @@ func (x *tr) functionOnce(target string, d *ast.FuncDecl) (out string, err strin
 		x.recvObj = nil
 	}
 	pos := fset.Position(d.Pos())
+	x.wptDone(target)
 	params = append(params, x.extra...)
 	return fmt.Sprintf("/-- %s:%d `%s` -/\ndef %s %s : %s :=\n  %s\n", strings.TrimPrefix(pos.Filename, os.Args[1]+"/"), pos.Line, target,
 		leanName(target), strings.Join(params, " "), strings.Join(res, " × "), body), "", false
@@ -2942,6 +3018,7 @@ func main() {
 		x.translated[leanName(t)] = true
 		fmt.Fprintln(&buf, out)
 	}
+	wptEnd()
 	for _, name := range genOrder {
 		g := genStructs[name]
 		fmt.Printf("/-- %s `%s` -/\nstructure %s where\n", strings.TrimPrefix(g.pos, os.Args[1]+"/"), name, name)
